@@ -16,7 +16,8 @@ def with_scripted_tasks(files, rng, force=False):
     f = copy.deepcopy(files); names = set()
     def fix(tasks):
         for n, t in tasks.items():
-            t["cmd"] = [TASK_CMD]; t.pop("export", None); t.pop("workdir", None); names.add(n)
+            expr = any("$(" in c for c in t.get("cmd") or [])       # keep an expression over the task's required variables
+            t["cmd"] = [TASK_CMD + (" $(${PORT} + 1)" if expr else "")]; t.pop("export", None); t.pop("workdir", None); names.add(n)
     for docs in f.values():
         for d in docs:
             for c in (d.get("contexts") or []) + (d.get("builders") or []):
